@@ -40,7 +40,7 @@ Bool == {Rec(ep, s, c, m, <<ct, fr, open>>) : ep \in {"bool64", "tree64", "exp_b
         \cup {Rec(ep, s, c, m, <<ct, fr, open>>) : ep \in {"boolD", "treeD", "exp_boolD"}, s \in 1..NS, c \in {1, 2, 8, 14}, m \in 0..3, ct \in {1, 4}, fr \in {1, 3}, open \in {0, 1}}
 Offs == {Rec(ep, s, 1, m, <<jt, et, d>>) : ep \in {"offset", "offset_tree", "exp_inflate64"}, s \in 1..NS, m \in 0..2, jt \in 0..3, et \in 0..4, d \in {1, 2, 3}}
         \cup {Rec("offsetD", s, 1, m, <<jt, et, d>>) : s \in 1..NS, m \in 0..1, jt \in {0, 2}, et \in 0..4, d \in {1, 3}}
-Rcs == {Rec(ep, s, 1, m, <<r>>) : ep \in {"rectclip", "rectcliplines", "exp_rectclip64", "exp_rectcliplines64", "rectclipD"}, s \in 1..NS, m \in 0..2, r \in 1..3}
+Rcs == {Rec(ep, s, 1, m, <<r>>) : ep \in {"rectclip", "rectcliplines", "exp_rectclip64", "exp_rectcliplines64", "rectclipD"}, s \in 1..NS, m \in 0..2, r \in 1..4}
 Mks == {Rec(ep, s, c, m, <<closed>>) : ep \in {"minksum", "minkdiff", "exp_minksum64", "exp_minkdiff64"}, s \in 1..NS, c \in 1..NS, m \in 0..2, closed \in {0, 1}}
 Utl == {Rec(ep, s, 1, m, <<k>>) : ep \in {"trim", "simplify", "rdp", "strip", "pip", "misc"}, s \in 1..NS, m \in 0..2, k \in 0..3}
 (* short call SEQUENCES on one object (object lifetime and sharing): offsetting into a polytree that is destroyed before the next *)
